@@ -8,6 +8,10 @@ Stage C: lockstep correspondence on real TunnelCommunity nodes (1 originator, re
          on_destroy / remove_* / timer; data plane = M04_onion), evaluated inside Coq, comparing the emitted
          cells / destroys and the successor state (three routing tables, CreatedRequestCache, CreateRequestCache,
          scheduled removals).
+Stage G/P'/C': (tools/checks/c04_onion_gen.py) the table operations translated from the source on every run (tools/tr/tr_onion.py
+         -> gen/G04_onion.v; fail closed), props/C05x.v (g_cstep = cstep: the generated on_create / on_created / on_destroy /
+         remove_* compute what M05_isolation computes), and the same histories evaluated on the generated functions
+         (quick: every fourth block).
 Oracle : (independent of the model) payloads tagged with their circuit leave only through that circuit's exit
          socket and come back only to that circuit of the originator, under every random interleaving and
          reordering of deliveries; forged cells (unknown id, known id with foreign body) change no table entry; well-formed cells of
@@ -37,6 +41,7 @@ import os
 from tools.checks import c04
 from tools.vlib import onionlock, repoenv
 from tools.vlib.tunnelnet import FakeTransport as tunnelnet_FakeTransport
+from tools.checks import c04_onion_gen
 from tools.vlib.coqrun import zl
 from tools.vlib.onionlock import NULL, addr_coq, zlist
 from tools.vlib.vtime import VLoop, patched_time
@@ -45,6 +50,8 @@ IMPORTS = ("From Coq Require Import ZArith List Bool.\n"
            "From IPV8V Require Import lib.PyErr lib.Bytes model.M02_wire model.M03_recv model.M04_onion model.M04_harness "
            "model.M05_isolation model.M05_harness.\n"
            "Import ListNotations.\nOpen Scope Z_scope.\n")
+GEN_IMPORTS = IMPORTS.replace("model.M05_harness.", "model.M05_harness model.M04_gen_rt gen.G04_onion model.M04_onion_gen "
+                              "model.M05_onion_gen.")
 
 
 def key_ok(b):
@@ -979,6 +986,10 @@ def evaluate(ctx, tn, book, label):
                   json.dumps(cases[i][2])[:600] + "\nCASE " + cases[i][0][:300] + "\nIMPL " + cases[i][1][:300])
     ctx.coverage["traces_validated_against_impl"] += len(cases) - len(mism)
     ctx.extra.setdefault("lockstep_events", {})[label] = len(cases)
+    # extension: the same histories on the table operations translated from the source (gen/G04_onion.v)
+    if ctx.extra.get("generated", {}).get("gen/G04_onion.v"):
+        c04_onion_gen.evaluate(ctx, tn, GEN_IMPORTS, "g_run_hcase", "coutcome_eqb", cases, label, "hcase * coutcome",
+                               "model/M05_onion_gen.vo", every=4 if ctx.quick else 1)
 
 
 async def lock_building(ctx, tn, book, hops_list, r):
@@ -1192,7 +1203,10 @@ def run(ctx):
                 ctx.violation(k, "corpus witness %s fails again: %s" % (os.path.basename(f), w), c)
             ctx.count(("corpus", os.path.basename(f), json.dumps(c, sort_keys=True)), nontrivial=True)
     ctx.proofs()
-    ctx.coverage["trusted_base"] = [
+    # extension: the table operations translated from the AST (gen/G04_onion.v), theorems in props/C05x.v
+    if c04_onion_gen.translate(ctx) is not None:
+        ctx.proofs(part="C05x")
+    ctx.coverage["trusted_base"] = c04_onion_gen.NOT_TRANSLATED + [
         "Coq 8.16.1 kernel; no axioms",
         "AEAD hypotheses as in C04 (ideal authenticity for exit_binding / keyless_is_noop)",
         "destroy messages: the signature check of lazy_wrapper is the primitive of C01 (sender = authenticated key)",
